@@ -22,6 +22,9 @@ import (
 	"context"
 	"encoding/json"
 	"fmt"
+	"go/ast"
+	"go/parser"
+	"go/token"
 	"math/rand"
 	"net"
 	"net/http"
@@ -42,6 +45,7 @@ import (
 	mockcache "github.com/attestantio/vouch/services/cache/mock"
 	"github.com/attestantio/vouch/services/metrics"
 	nullmetrics "github.com/attestantio/vouch/services/metrics/null"
+	"github.com/attestantio/vouch/util"
 	"github.com/attestantio/vouch/verifsupport"
 	"github.com/rs/zerolog"
 	zerologger "github.com/rs/zerolog/log"
@@ -428,7 +432,7 @@ func (w *c19wWorld) boot(st c19wStep) verifsupport.Ev {
 				c19wSetDoc(doc, []string{"graffiti", "dynamic"}, "location", "file:///nonexistent/graffiti")
 			}
 			continue
-		case "eth2client", "multiclient", "majordomo", "signer", "validatorsmanager", "cache":
+		case "eth2client", "multiclient", "majordomo", "signer", "validatorsmanager", "cache", "attestingnodes":
 			continue
 		default:
 			path = []string{"strategies", s.S}
@@ -703,6 +707,19 @@ func (w *c19wWorld) start(svc string) ([]c19wObs, error) {
 			obj, err = startCache(ctx, w.monitor, w.chainTime, sched, w.main,
 				w.main.(eth2client.BeaconBlockHeadersProvider), w.main.(eth2client.SignedBeaconBlockProvider))
 		}
+	case "attestingnodes":
+		// util.BeaconNodeAddressesForAttesting(): what initController makes the events client from; the
+		// implementation it has to follow is the attestation data strategy that runs
+		ad, e := selectAttestationDataProvider(ctx, w.monitor, w.main, w.chainTime, cacheSvc)
+		clients := w.newClients()
+		if e != nil {
+			// no attestation data strategy could be constructed (no nodes for it): nothing to follow
+			return append(clients, c19wObs{svc: svc, impl: "error", used: map[string]string{}}), nil
+		}
+		as := append([]string{}, util.BeaconNodeAddressesForAttesting()...)
+		sort.Strings(as)
+		return append(clients, c19wObs{svc: svc, impl: c19wImplOf(ad, "/strategies/attestationdata/"),
+			used: map[string]string{"addresses": strings.Join(as, ",")}}), nil
 	case "eth2client":
 		for _, n := range []string{"n1", "n2"} {
 			if _, e := fetchClient(ctx, w.monitor, w.nodeOf[n]); e != nil {
@@ -771,11 +788,75 @@ func (w *c19wWorld) start(svc string) ([]c19wObs, error) {
 	return append(clients, o), nil
 }
 
+// the functions of package main whose constructed services this driver observes
+var c19wDriven = map[string]bool{
+	"selectAttestationDataProvider": true, "selectAggregateAttestationProvider": true, "selectProposalProvider": true,
+	"selectSyncCommitteeContributionProvider": true, "selectBeaconBlockRootProvider": true, "selectSubmitterStrategy": true,
+	"genericAddressToClientMapper": true, "startMultinodeSubmitter": true, "selectBuilderBidProvider": true,
+	"selectSignedBeaconBlockProvider": true, "selectBeaconHeaderProvider": true, "selectScheduler": true, "startCache": true,
+	"startGraffitiProvider": true, "startValidatorsManager": true, "fetchClient": true, "fetchMultiClient": true,
+}
+
+// census of the call sites of the hierarchical lookups in package main (read from the sources the test was built
+// from): for every site the enclosing function, the lookup, and the path argument if it is a string literal.
+// Written next to the trace; checks/C19.py records it and refuses (exit 2, not a verdict) a site that computes its
+// path at run time in a function this driver does not drive.
+func c19wCensus(t *testing.T, out string) {
+	fset := token.NewFileSet()
+	pkgs, err := parser.ParseDir(fset, ".", func(fi os.FileInfo) bool { return !strings.HasSuffix(fi.Name(), "_test.go") }, 0)
+	if err != nil {
+		t.Fatalf("census: %v", err)
+	}
+	lookups := map[string]bool{"BeaconNodeAddresses": true, "Timeout": true, "LogLevel": true, "ProcessConcurrency": true,
+		"HierarchicalBool": true, "BeaconNodeAddressesForAttesting": true, "BeaconNodeAddressesForProposing": true}
+	var sites []map[string]any
+	for _, pkg := range pkgs {
+		for fname, f := range pkg.Files {
+			for _, d := range f.Decls {
+				fd, ok := d.(*ast.FuncDecl)
+				if !ok || fd.Body == nil {
+					continue
+				}
+				ast.Inspect(fd.Body, func(n ast.Node) bool {
+					call, ok := n.(*ast.CallExpr)
+					if !ok {
+						return true
+					}
+					sel, ok := call.Fun.(*ast.SelectorExpr)
+					if !ok {
+						return true
+					}
+					if x, ok := sel.X.(*ast.Ident); !ok || x.Name != "util" || !lookups[sel.Sel.Name] {
+						return true
+					}
+					site := map[string]any{"file": filepath.Base(fname), "func": fd.Name.Name, "lookup": sel.Sel.Name,
+						"driven": c19wDriven[fd.Name.Name], "literal": true, "path": ""}
+					if len(call.Args) > 0 {
+						arg := call.Args[len(call.Args)-1]
+						if lit, ok := arg.(*ast.BasicLit); ok && lit.Kind == token.STRING {
+							site["path"], _ = strconv.Unquote(lit.Value)
+						} else {
+							site["literal"] = false
+						}
+					}
+					sites = append(sites, site)
+					return true
+				})
+			}
+		}
+	}
+	b, _ := json.Marshal(sites)
+	if err := os.WriteFile(out, b, 0o600); err != nil {
+		t.Fatalf("census: %v", err)
+	}
+}
+
 func TestVerifC19Wire(t *testing.T) {
 	var scenarios []c19wScenario
 	verifsupport.Scenarios(t, &scenarios)
 	tr := verifsupport.OpenTrace(t)
 	defer tr.Close()
+	c19wCensus(t, os.Getenv("VERIF_TRACE_OUT")+".sites.json")
 	zerolog.SetGlobalLevel(zerolog.Disabled)
 
 	w := &c19wWorld{t: t, rnd: rand.New(rand.NewSource(verifsupport.Seed())), dir: filepath.Join(t.TempDir(), "base")}
